@@ -53,7 +53,7 @@ def text_for(rng, hostile, allow_empty=False):
 def gen_graph(rng, n_ns=None, n_nodes=None, hostile=True, closed=True, values_ok=True, features=None, layered=None):
     """features: dict of switches that keep the graph inside / outside recorded-defect classes"""
     f = {"browse_colon": False, "attr_overflow": False, "empty_ns": False, "no_ua_use": False, "hostile_uri": False,
-         "repeat_nodes": False, "many_ns": False}
+         "repeat_nodes": False, "many_ns": False, "vt_values": False}
     f.update(features or {})
     # layered: 3-5 namespaces of which only some pairs are linked, so that a namespace uses a later one but not an earlier one
     if layered is None:
@@ -132,7 +132,7 @@ def gen_graph(rng, n_ns=None, n_nodes=None, hostile=True, closed=True, values_ok
                 elif a == "SymbolicName":
                     n["attrs"][a] = "S" + "".join(ch for ch in gen.plain_text(rng, 2) if ch.isalnum()) + "_" + str(rng.randint(0, 99))
         if n["cls"] in ("UAVariable", "UAVariableType"):
-            if n["cls"] == "UAVariable" and values_ok and rng.random() < 0.7:
+            if (n["cls"] == "UAVariable" or (n["cls"] == "UAVariableType" and f.get("vt_values"))) and values_ok and rng.random() < 0.7:
                 v = values.rand_value(rng)
                 if rng.random() < 0.07:      # markup-like text without '&' or '<' (']]>' must still be escaped in element content)
                     v = {"t": "String", "v": rng.choice(["a]]>b", "]]>", "limit[idx[0]]>5", "x]>y ]] >", "-->"])}
